@@ -5,6 +5,7 @@ import PartituraModel.Model.KeyEst
 import PartituraModel.Model.Vosa
 import PartituraModel.Model.C17Wrap
 import PartituraModel.Model.C17Float
+import PartituraModel.Model.C17Midi
 
 open Wire Model
 
@@ -55,8 +56,52 @@ def pKwVal : P (String × C17Wrap.KwVal) := do
   | _ => P.fail
 def pKNote : P KeyEst.KNote := do let p ← int; let d ← rat; pure (p, d)
 
+def pMsg : P C17Midi.Msg := do
+  let ty ← str; let dt ← nat; let ch ← nat; let n ← nat; let v ← nat
+  pure { type := ty, dt := dt, ch := ch, note := n, vel := v }
+
+def lexLe : List Int → List Int → Bool
+  | [], _ => true
+  | _ :: _, [] => false
+  | a :: as, b :: bs => if a < b then true else if b < a then false else lexLe as bs
+
+/-- canonical order of the notes of a part: the score keeps them on a timeline, the model in the order of `note_list` -/
+def noteKey (ids : Bool) (n : C17Midi.NoteOut) : List Int :=
+  [n.onset, n.pitch, n.dur, n.voice, ((n.step.toList.head?.map Char.toNat).getD 0 : Nat), n.alter, n.octave, if ids then (n.idx : Int) else 0]
+
+def fmtNoteOut (n : C17Midi.NoteOut) : String :=
+  fmtTuple [fmtInt n.onset, fmtInt n.pitch, fmtInt n.dur, fmtInt n.voice, n.step, fmtInt n.alter, fmtInt n.octave, n.id.getD "-"]
+
+def fmtPartOut (ids : Bool) (p : C17Midi.PartOut) : String :=
+  fmtTuple [p.id, p.key.getD "-", fmtList fmtNoteOut (p.notes.mergeSort fun a b => lexLe (noteKey ids a) (noteKey ids b))]
+
 def handle (ts : List String) : String :=
   match ts with
+  | "midix" :: rest =>
+    -- `load_score_midi` from the messages of the file to the notes of the parts of the score; an argument that the
+    -- call omitted (`-`, for the unit: flag 0) takes the default of the signature (Gen/C17MidiTables.lean)
+    orErr <| (run (do let mode ← opt nat; let quGiven ← bool; let qu ← opt nat; let ev ← opt bool; let ek ← opt bool
+                      let ids ← opt bool
+                      let tracks ← list (list pMsg); pure (mode, quGiven, qu, ev, ek, ids, tracks)) rest).bind
+      fun (mode, quGiven, qu, ev, ek, ids, tracks) =>
+        let ids' := ids.getD Gen.MIDI_DEFAULT_IDS
+        (C17Midi.loadScoreMidi (mode.getD Gen.MIDI_DEFAULT_MODE) (if quGiven then qu else Gen.MIDI_DEFAULT_QU)
+          (ev.getD Gen.MIDI_DEFAULT_VOICE) (ek.getD Gen.MIDI_DEFAULT_KEY) ids' tracks).map (fmtList (fmtPartOut ids'))
+  | "midinotes" :: rest =>
+    -- the array handed to the three estimators: `note_list` (onset, pitch, duration)
+    orErr <| (run (do let qu ← opt nat; let tracks ← list (list pMsg); pure (qu, tracks)) rest).bind
+      fun (qu, tracks) =>
+        (C17Midi.perKeyNotes (C17Midi.notesByTrackCh qu tracks)).map fun perKey =>
+          fmtList (fun n => fmtTuple [fmtInt n.1, fmtInt n.2.1, fmtInt n.2.2]) (C17Midi.noteList perKey)
+  | "midiassign" :: rest =>
+    orErr <| (run (do let mode ← nat; let keys ← list (do let a ← nat; let b ← nat; pure (a, b)); pure (mode, keys)) rest).map
+      fun (mode, keys) =>
+        let o := fun (x : Option Nat) => (x.map fmtNat).getD "-"
+        fmtList (fun g => fmtTuple [o g.1, o g.2.1, o g.2.2]) (C17Midi.assign mode keys)
+  | "notehash" :: rest =>
+    orErr <| (run (do let a ← nat; let b ← nat; pure (a, b)) rest).map fun (a, b) => fmtNat (Gen.noteHash a b)
+  | "quant" :: rest =>
+    orErr <| (run (do let qu ← opt nat; let t ← nat; pure (qu, t)) rest).map fun (qu, t) => fmtInt (C17Midi.quantT qu t)
   | "ps13" :: rest =>
     -- the spelling as the code computes it: binary64 where the code uses binary64 (`C17.spelling_binary64`: the same
     -- as `Ps13.ps13` on MIDI pitches); "ps13x" is the exact model
